@@ -32,11 +32,31 @@ def sh(cmd, cwd=None, timeout=3600, env=None, input=None):
     return p.returncode, p.stdout
 
 
+class BuildLock:
+    """serialises everything that reads or writes lean/ (regeneration of the translated files, lake build, the axiom
+    audit, taking a private copy of the driver): several checks — possibly pointed at different copies of the repository —
+    may run at once"""
+    held = 0
+
+    def __enter__(self):
+        if BuildLock.held == 0:
+            os.makedirs(os.path.join(LEAN, '.lake'), exist_ok=True)
+            self.f = open(os.path.join(LEAN, '.lake', 'verif.lock'), 'w')
+            fcntl.flock(self.f, fcntl.LOCK_EX)
+            BuildLock.file = self.f
+        BuildLock.held += 1
+        return self
+
+    def __exit__(self, *a):
+        BuildLock.held -= 1
+        if BuildLock.held == 0:
+            fcntl.flock(BuildLock.file, fcntl.LOCK_UN)
+            BuildLock.file.close()
+
+
 def lake_build(targets, clean_modules=False):
     """(ok, output). Serialised with a file lock: several checks may run at once."""
-    os.makedirs(os.path.join(LEAN, '.lake'), exist_ok=True)
-    with open(os.path.join(LEAN, '.lake', 'verif.lock'), 'w') as lk:
-        fcntl.flock(lk, fcntl.LOCK_EX)
+    with BuildLock():
         rc, out = sh(['lake', 'build'] + list(targets), cwd=LEAN, timeout=3000)
         return rc == 0, out
 
@@ -136,14 +156,16 @@ class ModelDriver:
     """runs the compiled Lean driver over a batch of op lines"""
 
     def __init__(self):
-        if not os.path.exists(DRIVER):
+        # a check works with its own copy of the driver, taken under the build lock (VERIF_DRIVER)
+        self.path = os.environ.get('VERIF_DRIVER') or DRIVER
+        if not os.path.exists(self.path):
             raise Infra('driver executable missing (lake build driver failed?)')
 
     def run(self, lines, timeout=3000):
         if not lines:
             return []
         data = '\n'.join(lines) + '\n'
-        p = subprocess.run([DRIVER], input=data, stdout=subprocess.PIPE, stderr=subprocess.PIPE,
+        p = subprocess.run([self.path], input=data, stdout=subprocess.PIPE, stderr=subprocess.PIPE,
                            text=True, timeout=timeout)
         if p.returncode != 0:
             raise Infra(f'driver crashed rc={p.returncode}: {p.stderr[-500:]}')
